@@ -393,16 +393,8 @@ def run(pm, ctx, rule, patterns, min_funcs=1):
     if ref is None:
         raise AnalysisError('anchor=reference/expressions.json (missing)')
     vocab = set(ref['attr_vocabulary'])
-    pats = [re.compile(p) for p in patterns]
-    todo = []
-
-    def add(f):
-        todo.append(f)
-        for g in f.nested.values():
-            add(g)
-    for q, f in sorted(pm.functions.items()):
-        if f.parent is None and any(p.search(q) for p in pats):
-            add(f)
+    from .ownership import select
+    todo = select(pm, patterns)
     n = 0
     for f in todo:
         r = ref['functions'].get(f.qualname)
